@@ -41,8 +41,9 @@ _enumerate()
 HANDLERS.sort(key=lambda h: h[0])
 NAMES = [h[0] for h in HANDLERS]
 
-def body(x: int = 0) -> int:
+def body(x: int = 0, note: str = "") -> int:
     return x
+CALL_KEYS = []
 
 def failing(x: int = 0) -> int:
     raise ValueError("boom")
@@ -72,7 +73,7 @@ def drive_loop(coro_or_val):
     return coro_or_val
 
 def world(kind, variant):
-    """Prepared system states. variant: 0 empty, 1 small mixed, 2 long queue, 3 partially purged, 4 waiting+failed."""
+    """Prepared system states. variant: 0 empty, 1 small mixed, 2 long queue, 3 partially purged, 4 waiting+failed, 5 long argument values."""
     reset_uuid()
     app = mk_app(kind, app_id="c20" + kind)
     t_ok = app.task(body); t_bad = app.task(failing)
@@ -104,6 +105,11 @@ def world(kind, variant):
         o.set_invocation_exception(bad, ValueError("boom"), ctx)
         o.waiting_for_results(ids[1], [ids[0]])
         ids.append(bad.invocation_id)
+    if variant == 5:
+        # long argument values: 600 characters stay inline in the call record, 1500 are externalised
+        long_ = new_invocations(app, t_ok, 2, [{"x": 20, "note": "n" * 600}, {"x": 21, "note": "m" * 1500}])
+        ids = [i.invocation_id for i in long_] + ids
+    CALL_KEYS[:] = [app.state_backend.get_invocation(i).call.call_id.key for i in ids] if ids and variant != 3 else []
     return app, ids, [t_ok, t_bad]
 
 def snapshot(app, kind):
@@ -139,7 +145,8 @@ def param_values(name, ann, ids, tasks, choice):
     if "task_id" in name or "workflow_type" in name:
         return [tasks[0].task_id.key, tasks[1].task_id.key, "no.such.task", "malformed", None if name != "task_id_key" else ""][choice % 5]
     if "call_id" in name:
-        return ["no-such-call", "a:b", ""][choice % 3]
+        dom = ([CALL_KEYS[0], CALL_KEYS[-1]] if CALL_KEYS else []) + ["no-such-call", "a:b", ""]
+        return dom[choice % len(dom)]
     if "runner_id" in name:
         return ["r1", "nobody", ""][choice % 3]
     if name == "status":
@@ -323,10 +330,10 @@ def finding_queue_rotates_on_failure(kind_i: int, limit: int, n: int, mask: int)
 HF = r'''
 def get___I__(kind_i: int, variant: int, c1: int, c2: int) -> bool:
     """
-    pre: 0 <= kind_i <= 1 and 0 <= variant <= 4 and 0 <= c1 <= __C1MAX__ and 0 <= c2 <= __C2MAX__
+    pre: 0 <= kind_i <= 1 and 0 <= variant <= 5 and 0 <= c1 <= __C1MAX__ and 0 <= c2 <= __C2MAX__
     post: _
     """
-    kind_i = pick(kind_i, 0, 1); variant = pick(variant, 0, 4); c1 = pick(c1, 0, 6); c2 = pick(c2, 0, 6)
+    kind_i = pick(kind_i, 0, 1); variant = pick(variant, 0, 5); c1 = pick(c1, 0, 6); c2 = pick(c2, 0, 6)
     with NoTracing():
         return call_handler(__I__, ["mem", "sqlite"][kind_i], variant, c1, c2)
 '''
